@@ -53,6 +53,7 @@ struct RegionRec { size_t limit; int W; };
 struct TbbStats {
     long regions = 0, leaves = 0, splits = 0, steals = 0, joins = 0, join_both = 0, join_one = 0, join_none = 0;
     long pushes = 0, push_other_strand = 0, body_on_found = 0, reduce_multi_run = 0;
+    long max_range = 0, regions_gt64 = 0, regions_gt256 = 0, regions_gt1024 = 0;   // reach: sizes of the ranges handed to regions
     std::vector<RegionRec> region_log;
     void reset() { *this = TbbStats(); }
 };
@@ -117,6 +118,15 @@ inline void strand_resume(int W) {
     if (s.active() && !s.is_aborting()) s.wait_until(&resume_cond, &a);
     strand_delta(+1);
 }
+inline void note_range(size_t n) {
+    IgnoreGuard ig;
+    if ((long) n > tbbstats.max_range) tbbstats.max_range = (long) n;
+    if (n > 64) tbbstats.regions_gt64++;
+    if (n > 256) tbbstats.regions_gt256++;
+    if (n > 1024) tbbstats.regions_gt1024++;
+}
+template<class R> inline auto note_range_of(const R &r, int) -> decltype((void) r.size()) { note_range((size_t) r.size()); }
+template<class R> inline void note_range_of(const R&, long) {}
 inline bool flip(int tag, int pm) { IgnoreGuard ig; Chooser *c = Sched::get().chooser(); return c ? c->flip(tag, pm) : false; }
 
 } // namespace sim
@@ -219,7 +229,7 @@ void for_exec(ForCtx<Range, Body> &c, Range &range) {
 template<class Range, class Body>
 void parallel_for(const Range &range, const Body &body) {
     if (range.empty()) return;
-    sim::RegionScope rs;
+    sim::RegionScope rs; sim::note_range_of(range, 0);
     detail_sim::ForCtx<Range, Body> c { &body, rs.W, 1 };
     Range r(range);
     detail_sim::for_exec(c, r);
@@ -322,7 +332,7 @@ template<class Range, class Value, class RealBody, class Reduction>
 Value parallel_reduce(const Range &range, const Value &identity, const RealBody &real_body, const Reduction &reduction) {
     Value acc(identity);
     if (range.empty()) return acc;
-    sim::RegionScope rs;
+    sim::RegionScope rs; sim::note_range_of(range, 0);
     detail_sim::RedCtx<Range, Value, RealBody, Reduction> c { &identity, &real_body, &reduction, rs.W, 1, 1 };
     Range r(range);
     detail_sim::red_exec(c, r, acc);
@@ -354,7 +364,7 @@ template<class Range, class Body> void ired_exec(int W, int &leaves, Range &rang
 template<class Range, class Body>
 typename std::enable_if<!std::is_const<Body>::value, void>::type parallel_reduce(const Range &range, Body &body) {
     if (range.empty()) return;
-    sim::RegionScope rs;
+    sim::RegionScope rs; sim::note_range_of(range, 0);
     int leaves = 1; Range r(range);
     detail_sim::ired_exec(rs.W, leaves, r, body);
 }
